@@ -281,4 +281,79 @@ theorem eq_nil_of_no_key {β} (m : List (Name × β)) (h : ∀ y, hasKey y m = f
     simp [hasKey, getAssoc] at this
 
 
+/-! ### the `OrderMap` invariant (distinct keys) is kept by everything that builds `CallArgs.named` -/
+
+theorem keys_setAssoc_of_mem {β} (x : Name) (v : β) (m : List (Name × β)) (h : x ∈ m.map (·.1)) :
+    (setAssoc x v m).map (·.1) = m.map (·.1) := by
+  induction m with
+  | nil => simp at h
+  | cons a r ih =>
+    obtain ⟨y, w⟩ := a
+    by_cases hy : y = x
+    · simp [setAssoc, hy]
+    · have : x ∈ r.map (·.1) := by
+        simp only [List.map_cons, List.mem_cons] at h
+        rcases h with h | h
+        · exact absurd h.symm hy
+        · exact h
+      simp [setAssoc, hy, ih this]
+
+theorem keys_setAssoc_of_not_mem {β} (x : Name) (v : β) (m : List (Name × β)) (h : x ∉ m.map (·.1)) :
+    (setAssoc x v m).map (·.1) = m.map (·.1) ++ [x] := by
+  induction m with
+  | nil => simp [setAssoc]
+  | cons a r ih =>
+    obtain ⟨y, w⟩ := a
+    simp only [List.map_cons, List.mem_cons, not_or] at h
+    have hy : ¬ y = x := fun e => h.1 e.symm
+    simp [setAssoc, hy, ih h.2]
+
+theorem nodup_keys_setAssoc {β} (x : Name) (v : β) (m : List (Name × β)) (h : (m.map (·.1)).Nodup) :
+    ((setAssoc x v m).map (·.1)).Nodup := by
+  by_cases hx : x ∈ m.map (·.1)
+  · rw [keys_setAssoc_of_mem x v m hx]; exact h
+  · rw [keys_setAssoc_of_not_mem x v m hx]
+    rw [List.nodup_append]
+    refine ⟨h, by simp, ?_⟩
+    intro a ha b hb
+    simp only [List.mem_singleton] at hb
+    subst hb
+    intro e
+    exact hx (e ▸ ha)
+
+theorem nodup_keys_spread (acc : CallArgs) (v : V) (acc' : CallArgs)
+    (h : (acc.named.map (·.1)).Nodup) (hs : spread acc v = .ok acc') : (acc'.named.map (·.1)).Nodup := by
+  cases v with
+  | atom a =>
+    cases a <;> simp [spread] at hs <;> subst hs <;> exact h
+  | list xs c => simp [spread] at hs; subst hs; exact h
+  | map kv =>
+    simp only [spread, Except.ok.injEq] at hs
+    subst hs
+    simp only
+    generalize acc.named = m at h
+    induction kv generalizing m with
+    | nil => simpa using h
+    | cons a r ih =>
+      simp only [List.foldl_cons]
+      exact ih _ (nodup_keys_setAssoc _ _ _ h)
+  | arglist pos named =>
+    simp only [spread] at hs
+    cases hadd : spread.addNamed acc.named named with
+    | error e => simp [hadd] at hs
+    | ok m' =>
+      simp only [hadd, Except.ok.injEq] at hs
+      subst hs
+      simp only
+      generalize acc.named = m at h hadd
+      induction named generalizing m with
+      | nil => simp [spread.addNamed] at hadd; subst hadd; exact h
+      | cons a r ih =>
+        obtain ⟨k, w⟩ := a
+        simp only [spread.addNamed, omInsert] at hadd
+        by_cases hk : hasKey k m = true
+        · simp [hk] at hadd
+        · simp only [hk, Bool.false_eq_true, if_false] at hadd
+          exact ih _ (nodup_keys_setAssoc _ _ _ h) hadd
+
 end Core
